@@ -308,6 +308,12 @@ def subTree (tree : List (V × V)) (k : V) : Except Err (List (V × V)) :=
   | some _ => .error (err "TypeError")
   | none => .error (err "KeyError")
 
+/-- `tree[self]` of a Limit: `[count, {}]` (a fresh one if absent) -/
+def limitState (tree : List (V × V)) (self : V) : Int × List (V × V) :=
+  match dget tree self with
+  | some (.list [.int c, .dict t]) => (c, t)
+  | _ => (0, [])
+
 /-- `ret` before the first item: `type(self.spec)()` for a dict / list spec, else None -/
 def emptyOf : GSpec → V
   | .dict .. => .dict []
@@ -342,11 +348,9 @@ def gstep : GSpec → V → List (V × V) → Except Err (V × List (V × V))
       | .error e => .error e
   | .limit oid n sub, target, tree =>
     -- if self not in tree: tree[self] = [0, {}]
-    let (cnt, inner) := match dget tree (.obj oid) with
-      | some (.list [.int c, .dict t]) => (c, t)
-      | _ => (0, [])
+    let inner := (limitState tree (.obj oid)).2
     -- scope[ACC_TREE] = tree[self][1]; tree[self][0] += 1
-    let cnt := cnt + 1
+    let cnt := (limitState tree (.obj oid)).1 + 1
     if cnt > n then .ok (.stop, dset tree (.obj oid) (.list [.int cnt, .dict inner]))
     else
       match gstep sub target inner with
